@@ -152,6 +152,7 @@ impl rustc_driver::Callbacks for Facts {
                     if matches!(kind, DefKind::Fn | DefKind::AssocFn) {
                         let vis = tcx.visibility(did);
                         o.push(("pub", J::Bool(vis.is_public())));
+                        o.push(("exported", J::Bool(tcx.effective_visibilities(()).is_reachable(ldid))));
                         let sig = tcx.fn_sig(did).instantiate_identity().skip_norm_wip().skip_binder();
                         o.push((
                             "params",
